@@ -66,6 +66,12 @@ def loop_headers(masked_body):
 
 def rewrite_for_loops(body, expect, log):
     """R3: `for PAT in EXPR {` -> `let mut __itN = EXPR; loop { let PAT = match __itN.next() { Some(__v) => __v, None => break };`"""
+    # a `for` written out by hand, `let mut IT = EXPR; while let Some(PAT) = IT.next() {`, is folded back into `for PAT in EXPR {`
+    # first (only when IT is used nowhere else), so that both spellings get the same translation
+    for m in list(re.finditer(r'let\s+mut\s+(\w+)\s*=\s*([^;]+?);\s*while\s+let\s+Some\((.+?)\)\s*=\s*(\w+)\.next\(\)\s*\{', body)):
+        if m.group(1) == m.group(4) and len(re.findall(r'(?<![A-Za-z0-9_.])' + re.escape(m.group(1)) + r'(?![A-Za-z0-9_])', body)) == 2:
+            body = body.replace(m.group(0), 'for %s in %s {' % (m.group(3), m.group(2)), 1)
+            log.append({'rule': 'R3', 'matched': norm_ws(m.group(0)), 'replacement': 'for %s in %s {' % (m.group(3), m.group(2))})
     n = 0
     while True:
         mb = mask(body)
